@@ -37,21 +37,22 @@ VARIABLES stream,   \* the generated client stream
           ch,       \* state of elementStream: "init" (open, nobody reads it) | "open" | "closed" | "none"
           cons,     \* consumers: sequence of [g, q, closed, done]
           st,       \* the store
-          ins, errs, orphans, fail
-vars == <<stream, pol, phase, i, gname, ch, cons, st, ins, errs, orphans, fail>>
+          ins, errs, orphans, fail,
+          ord       \* history: the order in which the consumers committed
+vars == <<stream, pol, phase, i, gname, ch, cons, st, ins, errs, orphans, fail, ord>>
 
 Alph == IF Alpha = "safe" THEN SafeAlphabet ELSE Alphabet
 W == Policies[pol]
 Visible == SelectSeq(stream, LAMBDA el : el.g \in W)
 
 Init == /\ stream = <<>> /\ pol \in DOMAIN Policies /\ phase = "gen" /\ i = 1 /\ gname = "" /\ ch = "init"
-        /\ cons = <<>> /\ st = InitStore /\ ins = 0 /\ errs = 0 /\ orphans = 0 /\ fail = ""
+        /\ cons = <<>> /\ st = InitStore /\ ins = 0 /\ errs = 0 /\ orphans = 0 /\ fail = "" /\ ord = <<>>
 
 Gen == /\ phase = "gen" /\ Len(stream) < MaxLen
        /\ \E el \in Alph : stream' = Append(stream, el)
-       /\ UNCHANGED <<pol, phase, i, gname, ch, cons, st, ins, errs, orphans, fail>>
+       /\ UNCHANGED <<pol, phase, i, gname, ch, cons, st, ins, errs, orphans, fail, ord>>
 Start == /\ phase = "gen" /\ Len(stream) > 0 /\ phase' = "run"
-         /\ UNCHANGED <<stream, pol, i, gname, ch, cons, st, ins, errs, orphans, fail>>
+         /\ UNCHANGED <<stream, pol, i, gname, ch, cons, st, ins, errs, orphans, fail, ord>>
 
 AllDone == \A k \in DOMAIN cons : cons[k].done
 CloseCur(cs) == IF ch = "open" THEN [cs EXCEPT ![Len(cs)].closed = TRUE] ELSE cs
@@ -69,21 +70,21 @@ Recv ==
   /\ phase = "run" /\ fail = "" /\ i <= Len(Visible)
   /\ LET el == Visible[i] IN
        IF el.g \in SchemaNames
-       THEN /\ errs' = errs + 1 /\ i' = i + 1 /\ UNCHANGED <<stream, pol, phase, gname, ch, cons, st, ins, orphans, fail>>
+       THEN /\ errs' = errs + 1 /\ i' = i + 1 /\ UNCHANGED <<stream, pol, phase, gname, ch, cons, st, ins, orphans, fail, ord>>
        ELSE IF el.g # gname \/ (Variant = "waits" /\ ch = "init")
        THEN \* SwitchGraph
             IF ch = "closed"
-            THEN /\ fail' = "close of closed channel" /\ UNCHANGED <<stream, pol, phase, i, gname, ch, cons, st, ins, errs, orphans>>
+            THEN /\ fail' = "close of closed channel" /\ UNCHANGED <<stream, pol, phase, i, gname, ch, cons, st, ins, errs, orphans, ord>>
             ELSE /\ (Variant = "waits" => AllDone)        \* the repaired loop waits for the consumer it closed
                  /\ IF el.g \notin DOMAIN st
                     THEN /\ errs' = errs + 1 /\ cons' = CloseCur(cons) /\ i' = i + 1
                          /\ ch' = IF Variant = "waits" THEN "none" ELSE "closed"
                          /\ gname' = IF Variant = "waits" THEN el.g ELSE gname
-                         /\ UNCHANGED <<stream, pol, phase, st, ins, orphans, fail>>
+                         /\ UNCHANGED <<stream, pol, phase, st, ins, orphans, fail, ord>>
                     ELSE /\ gname' = el.g /\ ch' = "open" /\ i' = i + 1
                          /\ Forward(el, "open", Append(CloseCur(cons), [g |-> el.g, q |-> <<>>, closed |-> FALSE, done |-> FALSE]))
-                         /\ UNCHANGED <<stream, pol, phase, st>>
-       ELSE /\ i' = i + 1 /\ Forward(el, ch, cons) /\ UNCHANGED <<stream, pol, phase, gname, ch, st>>
+                         /\ UNCHANGED <<stream, pol, phase, st, ord>>
+       ELSE /\ i' = i + 1 /\ Forward(el, ch, cons) /\ UNCHANGED <<stream, pol, phase, gname, ch, st, ord>>
 
 \* in the repaired loop the close at a switch is followed by wg.Wait(): model the close as its own step
 CloseForSwitch ==
@@ -91,24 +92,24 @@ CloseForSwitch ==
   /\ Visible[i].g # gname /\ Visible[i].g \notin SchemaNames
   /\ ~cons[Len(cons)].closed
   /\ cons' = CloseCur(cons)
-  /\ UNCHANGED <<stream, pol, phase, i, gname, ch, st, ins, errs, orphans, fail>>
+  /\ UNCHANGED <<stream, pol, phase, i, gname, ch, st, ins, errs, orphans, fail, ord>>
 
 EOF ==
   /\ phase = "run" /\ fail = "" /\ i > Len(Visible)
   /\ IF ch = "closed"
      THEN /\ fail' = "close of closed channel" /\ UNCHANGED <<phase, cons, ch>>
      ELSE /\ cons' = CloseCur(cons) /\ phase' = "wait" /\ ch' = "closed" /\ UNCHANGED fail
-  /\ UNCHANGED <<stream, pol, i, gname, st, ins, errs, orphans>>
+  /\ UNCHANGED <<stream, pol, i, gname, st, ins, errs, orphans, ord>>
 
 \* kvgraph.BulkAdd: the whole channel content is written by one bulk write, flushed after the close
 Commit(k) ==
   /\ cons[k].closed /\ ~cons[k].done
   /\ st' = FoldLeft(LAMBDA s, el : AddOne(s, el), st, cons[k].q)
-  /\ cons' = [cons EXCEPT ![k].done = TRUE]
+  /\ cons' = [cons EXCEPT ![k].done = TRUE] /\ ord' = Append(ord, k)
   /\ UNCHANGED <<stream, pol, phase, i, gname, ch, ins, errs, orphans, fail>>
 
 Return == /\ phase = "wait" /\ AllDone /\ phase' = "done"
-          /\ UNCHANGED <<stream, pol, i, gname, ch, cons, st, ins, errs, orphans, fail>>
+          /\ UNCHANGED <<stream, pol, i, gname, ch, cons, st, ins, errs, orphans, fail, ord>>
 
 Next == Gen \/ Start \/ Recv \/ CloseForSwitch \/ EOF \/ Return \/ \E k \in DOMAIN cons : Commit(k)
 Spec == Init /\ [][Next]_vars
@@ -132,6 +133,6 @@ Refines == Finished => Disagreement = ""
 EmitPrediction ==
   (Finished /\ Disagreement # "") =>
      Emit("pred", [stream |-> stream, pol |-> pol, kind |-> Disagreement,
-                   commits |-> [k \in DOMAIN cons |-> cons[k].g], visible |-> Len(Visible)])
+                   consumers |-> [k \in DOMAIN cons |-> cons[k].g], order |-> ord])
 EmitRun == Finished => Emit("run", [n |-> Len(stream), ok |-> Disagreement = ""])
 =======================================================================
